@@ -1336,6 +1336,31 @@ func oracleLedger(o *e2eOutcome, v vfn) {
 					}
 				}
 			}
+			if resent {
+				// the same version can be queued several times (touched between scans): each
+				// queue entry is sent once in its own right.  A part counts as sent AGAIN only
+				// if it went out more often than the name was queued
+				pushes, carried := 0, 0
+				for _, e := range o.events {
+					if e.Kind == "q_push" && e.Name == p.Name && e.Gen == r.Gen {
+						pushes++
+					}
+				}
+				for _, q := range o.reqs {
+					if q.Class != "data" || q.Gen != r.Gen {
+						continue
+					}
+					for _, qp := range q.Parts {
+						if qp.Name == p.Name && qp.Hash == p.Hash && qp.Beg < p.End && p.Beg < qp.End {
+							carried++
+							break
+						}
+					}
+				}
+				if carried <= pushes {
+					resent = false
+				}
+			}
 			changed := fileChangedAfter(o, p.Name, p.Hash)
 			// written again (content or just the modification time) after the scan that
 			// found the version this request carried: a new version for the sender, sent
